@@ -836,14 +836,6 @@ def run_batch(ck, cases, use_model=True):
         if model["fmt"] != real["fmt"]:
             ck.disagree(f"get_filename: model {model['fmt']} vs code {real['fmt']}", slim)
             continue
-        if dup_alt(case) and any(rm.get("parse") != rr.get("parse") or rm.get("info") != rr.get("info")
-                                 for rm, rr in zip(model["names"], real["names"])):
-            # known defect class: the non-capturing copy of an alternation is inserted without a group
-            n0 = next(rr["name"] for rm, rr in zip(model["names"], real["names"])
-                      if rm.get("parse") != rr.get("parse") or rm.get("info") != rr.get("info"))
-            ck.violation("dup-alternation", f"caps-mismatch: repeated alternation placeholder: parse/get_info of {n0!r} "
-                         f"deviates from the template semantics (regex {tpl_str(case['toks'])!r})", dict(slim, names=[n0]))
-            continue
         for rm, rr in zip(model["names"], real["names"]):
             if rm.get("parse") != rr.get("parse"):
                 ck.disagree(f"parse_filename({rr['name']!r}): model {rm.get('parse')} vs code {rr.get('parse')}", dict(slim, names=[rr["name"]]))
